@@ -3,6 +3,7 @@ package checks
 import (
 	"encoding/json"
 	"fmt"
+	"os"
 	"time"
 
 	"github.com/magisterquis/curlrevshell/verifx/bworld"
@@ -119,5 +120,11 @@ func c01(r *ev.Result, tier string) {
 	quietSpell(r, "C01")
 	/* The HTTP seam: the same rule through the real handlers. */
 	c01HTTP(r)
+	/* And the real program told to listen on two addresses. */
+	{
+		base := ev.Scratch("c01bin-")
+		c01RealTwoListen(r, base)
+		os.RemoveAll(base)
+	}
 	r.Rule += "; plus the HTTP seam: every ordered pair of streams over /i/{id}, /o/{id} with ids {k, kk, K, k%2Fx, k%20, %6B} and /io through the real handlers over TLS, with a probe line and a probe chunk"
 }
